@@ -843,7 +843,51 @@ def c03(ctx):
                                   "exit": code}, prop="C03")
 
 
+def c09(ctx):
+    import lexcheck as lx
+    nseeds = 3 if ctx.quick else 8
+    ctx.rule = ("token pairs: 40 tokens (all 25 continuation tokens + one of every other class) x 12 separators "
+                "(nothing, space, tab, CR, LF, comment, `;`, blank line, CR LF, ` ; `, `;` LF, comment-only lines) "
+                "x 40 tokens; token triples over %s first tokens x 5 separators x 8 x 5 x 3: the lexer machine "
+                "must yield exactly the written tokens with a statement end exactly where the rule of the property "
+                "says (LayoutRule), and the real token stream must equal the machine's; end to end: the programs "
+                "of the C01 (composition) and C17 (failures) models rendered under %d seeded layouts (terminator "
+                "choice, continuation breaks, inter-token whitespace, comments with multi-byte text, blank lines, "
+                "`_` in integers, \\xHH escapes, redundant parentheses) must print the same and fail with the "
+                "same message at the position the renderer recorded; non-trivial = every case"
+                % ("14" if ctx.quick else "40", nseeds))
+    cfg = os.path.join(sv.scratch("cfg", clean=False), "MC_Layout.cfg")
+    open(cfg, "w").write("INIT LInit\nNEXT LNext\nCONSTANTS\n  Firsts <- AllToks\n  TripleFirsts <- %s\n"
+                         "  Seconds <- SecondsQuick\n  Thirds <- ThirdsQuick\n  Seps <- SepsAll\n"
+                         "INVARIANTS\n  LexInv\n  LayoutRule\n  NeverFails\n  EmitCase\nCHECK_DEADLOCK TRUE\n"
+                         % ("FirstsQuick" if ctx.quick else "AllToks"))
+    rc, out = sv.tlc("MC_Layout", cfg=cfg, timeout=3000)
+    if not sv.tlc_ok(rc, out):
+        raise sv.ToolError("TLC on MC_Layout failed:\n" + sv.tlc_error_text(out))
+    st = sv.tlc_stats(out)
+    ctx.states += st["distinct"]
+    ctx.transitions += st["generated"]
+    ctx.models["MC_Layout"] = {"module": "MC_Layout", "distinct_states": st["distinct"],
+                               "states_generated": st["generated"],
+                               "invariants": ["LexInv", "LayoutRule", "NeverFails"]}
+    specs = sv.tagged(out, "LEX")
+    texts = [lx.text_of(o["src"]) for o in specs]
+    lx.check_texts(ctx, texts, specs, "c09", "C09")
+    for t in texts:
+        ctx.nontrivial.add("layout:" + t)
+    for o in specs[:: max(1, len(specs) // 3)][:3]:
+        ctx.sample({"text": lx.text_of(o["src"]), "tokens": [t["k"] for t in o["toks"]]})
+    opts = {"hex_prob": 0.3, "underscore_prob": 0.5, "extra_parens": 0.15, "wild": 0.5}
+    seeds = tuple(ctx.seed * 100 + i for i in range(nseeds))
+    out1 = ctx.run_model("MC_C01", "C01ParamsTiny" if ctx.quick else "C01Params", max_steps=4000)
+    ctx.replay(out1, "c09-c01", seeds=seeds, render_opts=opts)
+    out17 = ctx.run_model("MC_C17", "C17Params", invariants=["C17Laws"],
+                          constants={"MaxDepth": "= %d" % (0 if ctx.quick else 2)}, name="MC_C17lay")
+    ctx.replay(out17, "c09-c17", seeds=seeds[: (2 if ctx.quick else 4)], render_opts=opts)
+
+
 REGISTRY = {
+    "C09": c09,
     "C03": c03,
     "C19": c19,
     "C02": c02,
